@@ -303,7 +303,9 @@ func (vc *VC) call(in ssa.Instruction, cc *ssa.CallCommon, h *Heap) []string {
 				}
 				// a sort permutes: distinct positions come from distinct positions
 				vc.assume(fmt.Sprintf("(forall ((k1 Int) (k2 Int)) (! (=> (and (<= %s k1) (< k1 %s) (<= %s k2) (< k2 %s) (not (= k1 k2))) (not (= (%s k1) (%s k2)))) :pattern ((%s k1) (%s k2))))", lo, hi, lo, hi, perm, perm, perm, perm))
-				vc.note("sort.*: result elements are old elements (ordering by the comparator not modelled)")
+				if !vc.applySortSpec(in, cc, sv, pre, h) {
+					vc.note("sort.*: result elements are old elements (ordering by the comparator not modelled: no `sorted ... by` clause for this call)")
+				}
 				return nil
 			}
 		}
@@ -462,7 +464,70 @@ func (vc *VC) call(in ssa.Instruction, cc *ssa.CallCommon, h *Heap) []string {
 				vc.root().assumed["callback "+p.Name()+" of "+vc.key+" assumed to preserve ghost state "+strings.Join(keep, ", ")] = true
 			}
 		}
+		// `dynamic <variable> preserves <lvalue>, ...`: the function value held by that local variable
+		// (an entry of a dispatch table) is ASSUMED to leave the listed locations unchanged; each table
+		// entry is expected to be verified against a frame that excludes them (listed in the evidence)
+		var kept []Clause
+		var pre Heap
+		var ev *Eval
+		if root := vc.root(); vc.parent == nil && root.ct != nil && len(root.ct.Dynamic) > 0 {
+			for name, cls := range root.ct.Dynamic {
+				if ssaValueNamed(vc.fn, cc.Value, name) {
+					kept = cls
+					root.assumed["dynamic call of "+name+" in "+vc.key+" assumed to preserve "+clauseSrcs(cls)+" (to be discharged by the frames of the dispatch table's entries)"] = true
+					root.atCallSeen["dynamic:"+name]++
+				}
+			}
+			if len(kept) > 0 {
+				pre = h.clone()
+				ev = vc.newEval(vc.fn, pre, vc.heap0, nil)
+				blk := in.Block()
+				vc.atInstr = in
+				ev.resolve = func(n string) (EVal, bool) { return vc.resolveLocalAtBlock(ev, n, blk) }
+			}
+		}
+		var before [][]string
+		for _, c := range kept {
+			v, err := ev.expr(c.E)
+			if err != nil {
+				vc.fail("dynamic ... preserves %s: %v", c.Src, err)
+			}
+			before = append(before, ev.rv(v))
+		}
 		vc.havocCall(h, "dynamic call at "+vc.pos(in.Pos()), in, keep...)
+		for i, c := range kept {
+			ev.cur = h.clone()
+			v, err := ev.expr(c.E)
+			if err != nil {
+				vc.fail("dynamic ... preserves %s: %v", c.Src, err)
+			}
+			after := ev.rv(v)
+			for k := range after {
+				if k < len(before[i]) {
+					vc.assume(implies(vc.curR, eq(after[k], before[i][k])))
+				}
+			}
+		}
+		vc.atInstr = nil
+		// `dynamic <variable> failure $g`: the Bool ghost records whether the call returned an error
+		if root := vc.root(); vc.parent == nil && root.ct != nil && len(root.ct.DynamicFail) > 0 {
+			for name, g := range root.ct.DynamicFail {
+				if !ssaValueNamed(vc.fn, cc.Value, name) {
+					continue
+				}
+				res := fresh()
+				if len(res) == 0 {
+					vc.fail("dynamic %s failure %s: the call has no result", name, g)
+				}
+				gd, ok := vc.CS.Ghosts[g]
+				if !ok || gd.Key != "" || gd.Val != "Bool" {
+					vc.fail("dynamic %s failure %s: %s must be declared `ghost %s Bool`", name, g, g, g)
+				}
+				root.atCallSeen["dynamic:"+name]++
+				h.M["G_"+g] = vc.define("G_"+sanitize(g), "Bool", not(eq(res[len(res)-1], "niliface")))
+				return res
+			}
+		}
 	}
 	return fresh()
 }
@@ -775,7 +840,28 @@ func (vc *VC) useContract(in ssa.Instruction, ct *FuncContract, sig *types.Signa
 		if !ct.HasMod {
 			vc.note("contract " + ct.Key() + " has no modifies clause: treated as modifies everything")
 		}
-		vc.havocAll(h, "callee "+ct.Key()+" modifies everything")
+		// accumulator ghosts the callee's contract does not mention are not changed by it (same
+		// assumption as for unknown code: it does not reach a function that updates them)
+		var keepAcc []string
+		for _, g := range sortedKeys(vc.CS.Ghosts) {
+			if !vc.CS.Ghosts[g].Acc {
+				continue
+			}
+			if _, used := h.M["G_"+g]; !used {
+				continue
+			}
+			mentioned := false
+			for _, c := range ct.Ensures {
+				if strings.Contains(c.Src, g) {
+					mentioned = true
+				}
+			}
+			if !mentioned {
+				keepAcc = append(keepAcc, g)
+				vc.root().assumed["accumulator "+g+" is not changed by "+ct.Key()+" (contract: modifies everything, does not mention it)"] = true
+			}
+		}
+		vc.havocAll(h, "callee "+ct.Key()+" modifies everything", keepAcc...)
 	} else {
 		for _, m := range ct.Modifies {
 			locs, err := evPre.modLoc(m.E)
@@ -931,6 +1017,10 @@ func (vc *VC) inline(in ssa.Instruction, f *ssa.Function, closure *ssa.MakeClosu
 		blockOut: map[*ssa.BasicBlock]Heap{}, blockR: map[*ssa.BasicBlock]string{}, blockExit: map[*ssa.BasicBlock]string{},
 		rangeOf: map[ssa.Value]ssa.Value{}, heap0: root.heap0, callSite: in}
 	for i, p := range f.Params {
+		if t, ok := vc.inlineArgTerms[i]; ok {
+			child.vals[p] = t // symbolic arguments (comparator of a sort call, sortspec.go)
+			continue
+		}
 		if i < len(args) {
 			child.vals[p] = vc.val(args[i])
 			// a function literal passed as an argument: calls of that parameter in the callee are
